@@ -2,7 +2,13 @@ from .harness import Mutant, edit_node, stmt_containing, compound_containing, to
 import ast
 F = 'src/pharmpy/model/statements.py'
 O = 'src/pharmpy/modeling/odes.py'
+def text_edit(old, new):
+    def edit(src):
+        return src.replace(old, new, 1) if old in src else None
+    return edit
 MUTANTS = [
+    Mutant('order_extend_all', 'src/pharmpy/model/statements.py', text_edit("            for c in connected:\n                if c not in nodes:\n                    nodes.append(c)\n                    if c != comp:\n                        remaining.remove(c)", "            new = [c for c in connected if c not in nodes]\n            nodes.extend(connected)\n            remaining = [c for c in remaining if c not in new]"), 'O9', 'duplicates in the ordering'),
+    Mutant('to_dict_canonical_order', 'src/pharmpy/model/statements.py', text_edit("        comps = [comp for comp in self._g.nodes]", "        comps = [output] + self._order_compartments()"), 'O10', 'serialised order differs from insertion order'),
     Mutant('amounts_insertion_order', F, edit_node('CompartmentalSystem.amounts', lambda n, seg: isinstance(n, ast.Call) and seg == 'self._order_compartments()',
            lambda seg: 'list(_comps(self._g))'), 'O1', 'amounts enumerates the node set'),
     Mutant('eqs_minus_inputs', F, edit_node('CompartmentalSystem.eqs', lambda n, seg: isinstance(n, ast.BinOp) and seg == 'self.compartmental_matrix @ amount_funcs + inputs',
